@@ -272,7 +272,16 @@ inductive Cmd where
   | untag (t p f : Id) (v : Option Id)
   /-- `Eups(flavor=f).undeclare(p, v)` -/
   | undeclare (p v f : Id)
+  /-- `Eups(flavor=f).undeclare(p)`: the version is omitted; carried out when exactly one version of `p` is
+  declared for the flavor, refused otherwise (`ProductNotFound` / "please choose one and try again") -/
+  | undeclareAny (p f : Id)
   deriving DecidableEq, Repr
+
+/-- the version `Eups.undeclare(p)` picks: the only one declared for flavor `f` -/
+def soleVersion (fs : Fs) (p f : Id) : Option Id :=
+  match versionsOf fs p f with
+  | [v] => some v
+  | _ => none
 
 /-- the version of `p` that carries tag `t` for flavor `f` and is declared (what `findProducts(p, None, [t])` /
 `findProduct(p, Tag(t))` find) -/
@@ -315,6 +324,10 @@ def steps (fs : Fs) : Cmd → List Step
       | none => []
   | .undeclare p v f =>
     if !hasFlavorV (vread fs p v) f then [] else dbUndeclare fs p v f
+  | .undeclareAny p f =>
+    match soleVersion fs p f with
+    | some v => if !hasFlavorV (vread fs p v) f then [] else dbUndeclare fs p v f
+    | none => []
 
 /-- the command assigns a tag that is already assigned for this product and flavor — a tag move, or the tag
 re-asserted (known finding D11: carried out as remove-then-write) -/
@@ -372,6 +385,10 @@ def targets (fs : Fs) : Cmd → List RPath
       | none => [])
   | .untag t p _ _ => [.cfile p t]
   | .undeclare p v f => [.vfile p v] ++ (findTags fs p v f).map (.cfile p ·)
+  | .undeclareAny p f =>
+    match soleVersion fs p f with
+    | some v => [.vfile p v] ++ (findTags fs p v f).map (.cfile p ·)
+    | none => []
 
 /-- every record file in the database is complete (what the reader needs in order not to meet garbage) -/
 def recordsComplete (fs : Fs) : Bool :=
